@@ -192,10 +192,12 @@ fn compile_one(src: String, argv: Vec<String>, cfg: Value, deadline: u64) -> Val
 
 fn cpp_one(src: String, file: String, defines: Vec<String>, incdirs: Vec<String>, query: Vec<String>, trace: bool, deadline: u64) -> Value {
     with_deadline(deadline, move || {
+        #[cfg(cc6502_verif_trace)]
         if trace {
             cc6502::verif::LOG.with(|l| *l.borrow_mut() = Some(Vec::new()));
         }
         let r = cc6502::verif::preprocess(&src, &file, &defines, &incdirs, &query);
+        #[cfg(cc6502_verif_trace)]
         let ev: Vec<Value> = if trace {
             cc6502::verif::LOG.with(|l| l.borrow_mut().take().unwrap_or_default())
                 .into_iter()
@@ -205,6 +207,8 @@ fn cpp_one(src: String, file: String, defines: Vec<String>, incdirs: Vec<String>
         } else {
             Vec::new()
         };
+        #[cfg(not(cc6502_verif_trace))]
+        let ev: Vec<Value> = Vec::new();
         let mut o = match r {
             Ok(p) => {
                 let mut m = serde_json::Map::new();
@@ -215,7 +219,7 @@ fn cpp_one(src: String, file: String, defines: Vec<String>, incdirs: Vec<String>
             }
             Err(e) => json!({"status": "err", "err": err_json(&e)}),
         };
-        if trace {
+        if trace && cfg!(cc6502_verif_trace) {
             o["events"] = json!(ev);
         }
         o
